@@ -487,6 +487,48 @@ pub fn run(ctx: &Ctx) -> Report {
             }
         }
     }
+    // one long search whose later iterations take seconds each (whatever the engine prints while
+    // an iteration is still running must be a well-formed line too, and the completed iterations
+    // must still come in order, once each)
+    if ctx.shard_index() == 3 {
+        let kiwi = "r3k2r/p1ppqpb1/bn2pnp1/3PN3/1p2P3/2N2Q1p/PPPBBPPP/R3K2R w KQkq - 0 1";
+        let ms = ctx.tier.pick(7000u64, 40_000);
+        rep.class("long-search(iterations of several seconds)");
+        let st = StepSpec { flood: 0, position: format!("position fen {kiwi}"), fen_after: kiwi.to_string(), go: format!("go movetime {ms}"), depth_only: None, deadline_ms: ms + 5000 };
+        if let Err(v) = run_steps(ctx, &[st], &mut rep) {
+            if let Some(k) = ctx.is_known(&v.sig) {
+                rep.known(&v.sig, &k.text);
+            } else {
+                rep.violation(v);
+            }
+        }
+    }
+    // deep depth-only searches of pawn endings (tiny trees): the score changes by a queen when the
+    // promotion comes inside the horizon, late in the iteration sequence
+    let deep = ctx.tier.pick(96, 1600) / ctx.shard_count() as u32;
+    run_prop(ctx, "c14-deep-endgame", deep, 20, (gen::synth_strategy(), 8u64..=11), &mut rep, |(ent, n), rep| {
+        let mut e = Entropy::new(ent);
+        let mut p = Pos::empty();
+        let wk = e.pick(64);
+        let c: Vec<usize> = (0..64).filter(|&s| (o::file_of(s) - o::file_of(wk)).abs().max((o::rank_of(s) - o::rank_of(wk)).abs()) > 1).collect();
+        p.sq[wk] = o::mk(true, o::K);
+        p.sq[c[e.pick(c.len())]] = o::mk(false, o::K);
+        for _ in 0..1 + e.pick(2) {
+            let white = e.pick(3) != 0;
+            let r = if white { 1 + e.pick(4) as i32 } else { 6 - e.pick(4) as i32 };
+            let f = e.pick(8) as i32;
+            if p.sq[o::sq(f, r)] == 0 {
+                p.sq[o::sq(f, r)] = o::mk(white, o::P);
+            }
+        }
+        p.wtm = e.pick(2) == 0;
+        p.fmn = 40 + e.pick(30) as u32;
+        if p.is_valid_start().is_err() || p.legal_moves().is_empty() {
+            return Ok(());
+        }
+        rep.class("root:pawn-ending(depth 8-11)");
+        search_case(ctx, &format!("position fen {}", p.to_fen()), &p.to_fen(), &format!("go depth {n}"), Some(*n), Duration::from_secs(300), rep)
+    });
     // roots from mate nets, either side to move (forced wins and forced losses at the root)
     let nets = ctx.tier.pick(160, 3200) / ctx.shard_count() as u32;
     run_prop(ctx, "c14-nets", nets, 20, (gen::synth_strategy(), 2u64..=5), &mut rep, |(ent, n), rep| {
@@ -598,5 +640,5 @@ pub fn replay(ctx: &Ctx, case: &Value) -> Report {
 }
 
 pub const LEVEL: &str = "exploration";
-pub const RULE: &str = "searches on the real engine binary: positions with >= 1 legal move (startpos / corpus / synthesised / pattern starts incl. mate nets, plus up to 40 plies of play) x 'go depth N' alone (N = 1..5; 5 only with <= 25 legal moves; plus N = 40 and 255 on a forced-mate position), roots from constructed mate nets with either side to move (forced wins and forced losses), searches during which isready is sent 2000 times (every stdout line must be an info line, readyok or the bestmove), game-flow sessions (6-10 consecutive depth-3/4 searches along a game in ONE engine process: the engine's own move, then a generated reply, so later searches meet cache entries of earlier ones) and, for the ordering and PV clauses, 'go nodes {50..100000}' / 'go movetime {5..300}'. Oracle: every stdout line starting with 'info' parses as UCI info (standard keys in any order, well-formed integers, moves in coordinate notation, score cp|mate); lines carrying 'depth' have depths exactly 1,2,...,k, each with a score and a non-empty pv that replays as legal moves from the searched position on the rules oracle; under 'go depth N' alone k == N before the bestmove. Game flows mix the go kinds (depth / game clock 2 s a side / movetime 80 / nodes 30000), and in half of the steps the opponent's reply is the move the engine expected (second pv move), so that the next root is a position the cache already holds. A soak session (one engine process, 26 quick / 260 thorough searches of 1.2 million nodes each on quiet endgames, where nearly every node stores a cache entry, every one of them judged, then six depth-3 searches of positions not seen before) covers long-lived processes with a full cache. A missing bestmove is C09's subject and only counted here. Non-trivial = depth-only search with N >= 2, or a limited search with >= 2 iteration reports; distinct by (position, go command).";
+pub const RULE: &str = "searches on the real engine binary: positions with >= 1 legal move (startpos / corpus / synthesised / pattern starts incl. mate nets, plus up to 40 plies of play) x 'go depth N' alone (N = 1..5; 5 only with <= 25 legal moves; plus N = 40 and 255 on a forced-mate position), roots from constructed mate nets with either side to move (forced wins and forced losses), searches during which isready is sent 2000 times (every stdout line must be an info line, readyok or the bestmove), game-flow sessions (6-10 consecutive depth-3/4 searches along a game in ONE engine process: the engine's own move, then a generated reply, so later searches meet cache entries of earlier ones) and, for the ordering and PV clauses, 'go nodes {50..100000}' / 'go movetime {5..300}'. Oracle: every stdout line starting with 'info' parses as UCI info (standard keys in any order, well-formed integers, moves in coordinate notation, score cp|mate); lines carrying 'depth' have depths exactly 1,2,...,k, each with a score and a non-empty pv that replays as legal moves from the searched position on the rules oracle; under 'go depth N' alone k == N before the bestmove. Game flows mix the go kinds (depth / game clock 2 s a side / movetime 80 / nodes 30000), and in half of the steps the opponent's reply is the move the engine expected (second pv move), so that the next root is a position the cache already holds. One long search (movetime 7 s quick / 40 s thorough on a middlegame position, so that single iterations last seconds) and depth-only searches to depth 8-11 of pawn endings (the score jumps by a queen late in the iteration sequence) are judged like all others. A soak session (one engine process, 26 quick / 260 thorough searches of 1.2 million nodes each on quiet endgames, where nearly every node stores a cache entry, every one of them judged, then six depth-3 searches of positions not seen before) covers long-lived processes with a full cache. A missing bestmove is C09's subject and only counted here. Non-trivial = depth-only search with N >= 2, or a limited search with >= 2 iteration reports; distinct by (position, go command).";
 pub const ASSUMPTIONS: &[&str] = &["the rules oracle replays the PVs", "whether a reported mate distance is right is not asserted (the statement does not fix it)"];
